@@ -285,7 +285,10 @@ def check_run_worker(ctx):
         g = [(canon(t), pol) for t, pol in A.guards_of(c)]
         has_idx = (canon(parse("samples_idx is not None")), True) in g or (canon(parse("samples_idx is None")), False) in g
         no_idx = (canon(parse("samples_idx is not None")), False) in g or (canon(parse("samples_idx is None")), True) in g
-        if arr is not None and canon(arr) == "samples_idx":
+        arr_res = flow.resolve(arr, at=A.enclosing_stmt(c)) if arr is not None else None
+        if arr is not None and canon(arr) == "samples_idx" and canon(arr_res) != "samples_idx":
+            ctx.violate(R, c, "arr is the caller's samples_idx, unmodified", "batches are cut from `%s`, not from the index array the caller supplied (callers index results with their own array)" % A.unparse(arr_res)[:80], key="arr-modified")
+        elif arr is not None and canon(arr) == "samples_idx":
             ctx.check(R, c, "arr=samples_idx under `samples_idx is not None`", has_idx or not no_idx, "array batching used when samples_idx is None", key="arr-guard")
         elif arr is None:
             ctx.check(R, c, "index batching only when no samples_idx", no_idx, "samples_idx is dropped: batches are index ranges of the table, not the requested rows", key="noarr-guard")
